@@ -15,9 +15,9 @@ CHECKS = {
    "Budgets (writes, drops, duplicates, timer expiries) and MTU/ISN values are those listed in the evidence parts; the network model loses/duplicates/reorders but does not corrupt.", "6 C01"),
 
  "C02": (True, "E2", "model_checking",
-   "deviation-bounded exhaustive schedule search (task order, select branch, per-frame faults) over the real socket stack under a paused clock",
+   "deviation-bounded exhaustive schedule search (task order, select branch, per-frame faults) over the real socket stack under a paused clock; exhaustive thread interleavings under loom (DPOR, preemption bound) for the socket layer's lock-protected hand-offs",
    "Socket/TcpStream/TcpListener scenarios (several write plans, read sizes, MTUs, late accept, replies, 1-3 clients, datagrams with a bystander) run on the real SocketAPI/Tcp/Udp/Ipv4/Arp/Pci/Network; every execution within d deviations from the FIFO, loss-free execution is run exactly once and judged: read lengths bounded, each stream a prefix of and finally equal to the peer's writes, datagrams intact and to the peer only.",
-   "Poll granularity: the chooser enumerates which runnable task is polled next (an over-approximation of any multi-thread runtime at that granularity) but not two polls running simultaneously; deviation bounds per scenario are in the evidence.", "6 C02"),
+   "The schedule search works at poll granularity (which runnable task is polled next, an over-approximation of any multi-thread runtime at that granularity). Two polls running simultaneously on two workers are covered only where the loom part reaches: accept() against deliveries of the same connection, and concurrent ephemeral-port allocation, with the socket layer's RwLocks as scheduling points (DashMap and tokio channels are not instrumented). Deviation and preemption bounds per scenario are in the evidence.", "6 C02"),
  "C05": (True, "E2", "model_checking",
    "deviation-bounded exhaustive schedule search over Network/Pci with virtual time",
    "Configurations of 1-2 networks, 2-4 machines, 1-2 taps, MTU boundary sizes, constant/variable latency and throughputs send unicast, unknown-address, broadcast and oversize frames concurrently; every schedule and jitter choice within d deviations is executed and judged exactly under virtual time: right tap only, every other tap for broadcast, payload and sender unchanged, MTU refusal, distinct addresses, latency and throughput lower bounds, medium serialisation.",
@@ -124,7 +124,7 @@ def main():
         "version": 1,
         "setup_cmd": "./setup.sh",
         "hooks": {
-            "guard": "cargo feature `verif` of elvis-core",
+            "guard": "cargo features `verif` (hooks, add-only) and `verif_loom` (= verif + loom's RwLock for the socket layer through the crate::vsync alias) of elvis-core",
             "enable": "harness crates depend on elvis-core by path with features=[\"verif\"]; tokio is patched to /verif/vendor/tokio via [patch.crates-io] in /verif/harness/Cargo.toml",
             "baseline_off_cmd": "/verif/baseline.sh",
             "source_commits": [h.split()[0] for h in hooks],
@@ -137,6 +137,8 @@ def main():
              "serves_properties": ["C01", "C02", "C04", "C05", "C06", "C13", "C14", "C15", "C16", "C19", "C20"]},
             {"name": "E3", "path": "harness/vkit/src/enumerate.rs", "kind_free_text": E3,
              "serves_properties": ["C08", "C09", "C10", "C12", "C14", "C18", "C19"]},
+            {"name": "E4", "path": "harness/vloom/src/main.rs", "kind_free_text": "loom 0.7.2: every interleaving of 2-4 real threads over the socket layer's locks (DPOR, preemption bound 3 quick / unbounded thorough), one sub-process per scenario (harness/vkit/src/loomrun.rs)",
+             "serves_properties": ["C02"]},
         ],
         "checks": checks,
         "not_applicable": na,
